@@ -51,6 +51,9 @@ pub enum Op {
     ReplaceEdge { s: u64, t: &'static str, d: u64 },
     /// DETACH semantics: all incident relationships are tombstoned, then the node.
     DeleteNode { e: u64 },
+    /// Only the node is tombstoned (what ndb_txn_tombstone_node does); its relationships must
+    /// disappear with it all the same.
+    TombstoneNodeOnly { e: u64 },
     SetNodeProp { e: u64, k: &'static str, v: Val },
     RemoveNodeProp { e: u64, k: &'static str },
     SetEdgeProp { s: u64, t: &'static str, d: u64, k: &'static str, v: Val },
@@ -88,6 +91,7 @@ impl Op {
             Op::DeleteEdge { .. } => "DeleteEdge".into(),
             Op::ReplaceEdge { .. } => "ReplaceEdge".into(),
             Op::DeleteNode { .. } => "DeleteNode".into(),
+            Op::TombstoneNodeOnly { .. } => "TombstoneNodeOnly".into(),
             Op::SetNodeProp { .. } => "SetNodeProp".into(),
             Op::RemoveNodeProp { .. } => "RemoveNodeProp".into(),
             Op::SetEdgeProp { .. } => "SetEdgeProp".into(),
@@ -114,6 +118,7 @@ impl Op {
             Op::DeleteEdge { s, t, d } => format!("DeleteEdge({s}-{t}->{d})"),
             Op::ReplaceEdge { s, t, d } => format!("ReplaceEdge({s}-{t}->{d})"),
             Op::DeleteNode { e } => format!("DeleteNode({e})"),
+            Op::TombstoneNodeOnly { e } => format!("TombstoneNodeOnly({e})"),
             Op::SetNodeProp { e, k, v } => format!("SetNodeProp({e}.{}={})", key_name(k), v.show()),
             Op::RemoveNodeProp { e, k } => format!("RemoveNodeProp({e}.{})", key_name(k)),
             Op::SetEdgeProp { s, t, d, k, v } => format!("SetEdgeProp({s}-{t}->{d}.{}={})", key_name(k), v.show()),
@@ -195,7 +200,7 @@ impl GraphModel {
             Op::RemoveLabel { e, l } => self.nodes.get(e).is_some_and(|n| n.labels.contains(*l)),
             Op::CreateEdge { s, d, .. } => self.nodes.contains_key(s) && self.nodes.contains_key(d),
             Op::DeleteEdge { s, t, d } | Op::ReplaceEdge { s, t, d } => self.edges.contains_key(&(*s, t.to_string(), *d)),
-            Op::DeleteNode { e } => self.nodes.contains_key(e),
+            Op::DeleteNode { e } | Op::TombstoneNodeOnly { e } => self.nodes.contains_key(e),
             Op::SetNodeProp { e, .. } => self.nodes.contains_key(e),
             Op::RemoveNodeProp { e, k } => self.nodes.get(e).is_some_and(|n| n.props.contains_key(*k)),
             Op::SetEdgeProp { s, t, d, .. } => self.edges.contains_key(&(*s, t.to_string(), *d)),
@@ -245,7 +250,7 @@ impl GraphModel {
             Op::ReplaceEdge { s, t, d } => {
                 self.edges.insert((*s, t.to_string(), *d), MEdge { count: 1, props: BTreeMap::new() });
             }
-            Op::DeleteNode { e } => {
+            Op::DeleteNode { e } | Op::TombstoneNodeOnly { e } => {
                 let n = self.nodes.remove(e).unwrap();
                 self.dead.insert(*e, n.iid);
                 self.edges.retain(|k, _| k.0 != *e && k.2 != *e);
@@ -724,6 +729,9 @@ impl Sut {
                             let r = tx.get_or_create_rel_type(&k.1).map_err(|e| format!("rel: {e}"))?;
                             tx.tombstone_edge(get(k.0, &local)?, r, get(k.2, &local)?);
                         }
+                        tx.tombstone_node(get(*e, &local)?);
+                    }
+                    Op::TombstoneNodeOnly { e } => {
                         tx.tombstone_node(get(*e, &local)?);
                     }
                     Op::SetNodeProp { e, k, v } => {
